@@ -251,6 +251,19 @@ func uncleanVariant(base *explore.Base, name string) *explore.Base {
 	return &b2
 }
 
+// baseVariant resolves "<base>", "<base>!unclean", "<base>!torn", "<base>!hdr3".
+func baseVariant(name string, cfg explore.Config) (*explore.Base, error) {
+	bname := strings.TrimSuffix(strings.TrimSuffix(strings.TrimSuffix(name, "!unclean"), "!torn"), "!hdr3")
+	base, err := explore.GetBase(bname, cfg, 0)
+	if err != nil {
+		return nil, err
+	}
+	if bname != name {
+		base = uncleanVariant(base, name)
+	}
+	return base, nil
+}
+
 // runPowerSpaces: afterCloseOnly restricts the failure instants to those from the return of a Close
 // to the completion of the following Open (C09); otherwise all instants (C06).
 func runPowerSpaces(c *explore.Ctx, spaces []plSpace, afterCloseOnly bool) {
@@ -517,7 +530,121 @@ func c06ConcScenarios(thorough bool) []*explore.Scenario {
 			scs = append(scs, &explore.Scenario{Name: fmt.Sprintf("PW-%s-%s-%d", bc[0], bc[1], i), Base: bc[0], Cfg: bc[1], Threads: []explore.ThreadProg{{op(explore.Compact, "")}, p}, Bound: -1, Record: true})
 		}
 	}
+	// W2: two writers that each sync their own writes (disjoint keys; ROLL+SW: every write is its own durability point).
+	// A Sync that returned makes durable every write that had returned before that Sync was called - whoever wrote it.
+	w2 := [][]explore.ThreadProg{
+		{{op(explore.Put, "a"), op(explore.Sync, "")}, {op(explore.Put, "e"), op(explore.Sync, "")}},
+		{{op(explore.Delete, "a"), op(explore.Sync, "")}, {op(explore.Put, "e"), op(explore.Put, "e"), op(explore.Sync, "")}},
+		{{op(explore.Put, "a"), op(explore.Sync, ""), op(explore.Put, "a")}, {op(explore.Put, "e"), op(explore.Sync, "")}},
+	}
+	for _, bc := range [][2]string{{"S2", "ROLL"}, {"S2", "ROLL+SW"}} {
+		for i, th := range w2 {
+			if bc[1] == "ROLL+SW" {
+				var ts []explore.ThreadProg
+				for _, p := range th {
+					var q explore.ThreadProg
+					for _, o := range p {
+						if o.Kind != explore.Sync {
+							q = append(q, o)
+						}
+					}
+					ts = append(ts, q)
+				}
+				th = ts
+			}
+			scs = append(scs, &explore.Scenario{Name: fmt.Sprintf("W2-%s-%s-%d", bc[0], bc[1], i), Base: bc[0], Cfg: bc[1], Threads: th, Bound: -1, Record: true})
+		}
+	}
 	return scs
+}
+
+// c06TwoWriterCheck: the per-key oracle for writers on disjoint keys. At a power failure after log position p, a
+// write is durable iff it returned without error and (sync-after-write mode) its own return lies at or before p, or a
+// Sync of any thread that returned at or before p was called after the write had returned.
+func c06TwoWriterCheck(c *explore.Ctx, base *explore.Base, sc *explore.Scenario, memo recMemo) func(r *explore.ConcRun) (string, string) {
+	lin := linCheck(base)
+	return func(r *explore.ConcRun) (string, string) {
+		if cl, msg := lin(r); msg != "" {
+			return cl, msg
+		}
+		evs := append([]explore.Event(nil), r.Events...)
+		sort.Slice(evs, func(i, j int) bool {
+			if evs[i].Thread != evs[j].Thread {
+				return evs[i].Thread < evs[j].Thread
+			}
+			return evs[i].Idx < evs[j].Idx
+		})
+		log := r.Sess.FS.Log
+		opts := simfs.PowerLossOpts{ReduceUnread: true, Dir: explore.DBPath, LockName: "lock", SegmentExt: refmodel.SegmentExt, MaxPerPos: 512}
+		var cls, res string
+		st := simfs.PowerLossImages(base.Image, log, 0, len(log), opts, func(im simfs.Image) bool {
+			a := allowedSet{later: map[string]map[string]bool{}, durOp: -1, base: base.Model.Clone()}
+			durable := func(w explore.Event) bool {
+				if w.Err != "" {
+					return false
+				}
+				if base.Cfg.SyncWrites && w.LogPos <= im.Pos {
+					return true
+				}
+				for _, s := range evs {
+					if s.Op.Kind == explore.Sync && s.Err == "" && s.LogPos <= im.Pos && w.Ret <= s.Call {
+						return true
+					}
+				}
+				return false
+			}
+			for _, w := range evs { // per thread in program order; keys are disjoint between threads
+				if w.Op.Kind != explore.Put && w.Op.Kind != explore.Delete {
+					continue
+				}
+				if w.LogAt > im.Pos {
+					continue // not yet called
+				}
+				k := string(base.Keys[w.Op.Key])
+				if durable(w) {
+					if w.Op.Kind == explore.Delete {
+						delete(a.base, k)
+					} else {
+						a.base[k] = w.Val
+					}
+					delete(a.later, k)
+					continue
+				}
+				if a.later[k] == nil {
+					a.later[k] = map[string]bool{}
+				}
+				if w.Op.Kind == explore.Delete {
+					a.later[k][absentMark] = true
+				} else {
+					a.later[k][w.Val] = true
+				}
+			}
+			c.Add("images", 1)
+			rec, fresh := memo.get(im.FS, base, explore.RecoverOpts{})
+			if fresh {
+				c.Add("recoveries", 1)
+				c.Distinct("image", explore.Hash64(sc.Base, sc.Cfg, im.FS.Hash()))
+			}
+			msg := ""
+			switch {
+			case rec.OpenErr != "":
+				msg = "Open after the power failure failed: " + rec.OpenErr
+			case rec.Internal != "":
+				msg = "database reopened after the power failure is inconsistent: " + rec.Internal
+			default:
+				msg = a.check(rec.Contents, r.Sess.KeyName)
+			}
+			if msg != "" {
+				cls, res = "power-loss", fmt.Sprintf("power failure after %d of %d file-system calls of the interleaved execution (next call %s), surviving-prefix choice {%s}: %s", im.Pos, len(log), opAt(log, im.Pos), im.Desc, msg)
+				return false
+			}
+			return true
+		})
+		if st.Capped > 0 {
+			c.Cap(fmt.Sprintf("more than %d power-loss images at one position of an interleaved execution: deviation-bounded enumeration used there", opts.MaxPerPos))
+		}
+		return cls, res
+	}
 }
 
 func c06ConcCheck(c *explore.Ctx, base *explore.Base, sc *explore.Scenario, memo recMemo, verdict map[string]string) func(r *explore.ConcRun) (string, string) {
@@ -729,6 +856,9 @@ func runC06Conc(c *explore.Ctx) {
 		k := sc.Base + "/" + sc.Cfg
 		if memos[k] == nil {
 			memos[k] = recMemo{}
+		}
+		if strings.HasPrefix(sc.Name, "W2-") {
+			return c06TwoWriterCheck(c, base, sc, memos[k])
 		}
 		return c06ConcCheck(c, base, sc, memos[k], nil)
 	})
